@@ -105,6 +105,9 @@ def judge(data, base, seq=None, devs=None):
 
 
 def replay_case(case):
+    if case.get("run"):
+        data = streams.TOKENS[case["run"][0]][2] * case["run"][1] + streams.seq_bytes(("Uack", "N1", "R1"))
+        return [(k + "|long_run", d[:200]) for k, d in judge(data, case["base"], None)[0]]
     data = bytes.fromhex(case["stream"])
     seq = tuple(case["tokens"]) if case.get("tokens") else None
     devs = {int(k): v for k, v in case["devs"].items()} if case.get("devs") else None
@@ -130,6 +133,18 @@ def eval_block(block, acc):
                         acc.outcomes[("short-read", len(r_log.items) > 0, min(len(r_log.errors), 3))] += 1
                         for key, detail in out:
                             acc.violation(key + "|short_read", {"stream": data.hex(), "tokens": list(seq), "base": base, "devs": {str(i): sl}}, detail)
+        return
+    elif block[0] == "runs":
+        # 1,100 consecutive rejected frames (more than Python's recursion limit) and then three good frames
+        tok, n = block[1], block[2]
+        data = streams.TOKENS[tok][2] * n + streams.seq_bytes(("Uack", "N1", "R1"))
+        for base in BASES:
+            out, m, r_log = judge(data, base, None)
+            acc.evaluations += m
+            acc.transitions += m
+            acc.outcomes[("run", len(r_log.items) > 0, min(len(r_log.errors), 3))] += 1
+            for key, detail in out:
+                acc.violation(key + "|long_run", {"run": [tok, n], "base": base}, detail[:200])
         return
     elif block[0] == "long":
         it = ((streams.seq_bytes(s), s) for s in streams.long_seqs(streams.LONG_NEIGHBOURS))
@@ -160,6 +175,7 @@ def run_tier(tier, t0):
     blocks += [("tokens", f, kf, "all") for f in ALPHABET]
     blocks.append(("long",))
     blocks += [("short", f) for f in streams.FRAME_TOKENS]
+    blocks += [("runs", t, 1100) for t in ("Ubad", "Nbad", "Rbad", "Ntype")]
     acc = engine.sweep(blocks, eval_block)
     engine.finish(
         PROP, tier, acc, t0, replay_case,
@@ -170,6 +186,7 @@ def run_tier(tier, t0):
         ),
         assumptions=[
             "a rejected frame's exception is what the protocol parser raises for the token standalone (O4)",
+            "extra rings: boundary-length and content-refused frames between neighbour pairs; runs of 1,100 consecutive rejected frames of each protocol followed by three good frames",
             "without an error handler the reader reports through the logging module (records captured at the root logger)",
         ],
         vacuity=[
